@@ -476,3 +476,5 @@ def plan(tier):
         "shrink": "ddmin",
         "budget_s": 200 if quick else 2400,
     }
+
+RULE += (" Also: the client's in-memory list of unsent keys across connections that never logged in (found by the thorough tier).")
